@@ -186,23 +186,7 @@ fn real_binary_grease(ctx: &Ctx, out: &mut Out, rng: &mut Rng) {
 }
 
 pub fn run(ctx: &Ctx, out: &mut Out, rng: &mut Rng) {
-    // (a) every configured batch_size once (quick) / several times (thorough), fault 0
-    let reps = if ctx.thorough { 24 } else { 8 };
-    let mut k = 0u64;
-    'o: for rep in 0..reps {
-        for bs in 1..=64u8 {
-            k += 1;
-            if k % ctx.nshards != ctx.shard {
-                continue;
-            }
-            let nrounds = if ctx.thorough && rep % 4 == 0 { 200 } else if ctx.thorough { 30 } else { 16 };
-            clean_history(out, rng, bs, nrounds, k);
-            if !ctx.time_left() {
-                out.note("clean loop cut by wall budget");
-                break 'o;
-            }
-        }
-    }
+    // (the fault-injection windows run first: their verdict is statistical and needs all of them)
     // (b) fault injection share: windows of >= 2000 replies per (p, batch_size). Several windows
     // with large batches per p, so that a fault decision shared by a whole batch (same mean,
     // inflated variance) shows up as windows outside the binomial 6-sigma band.
@@ -236,9 +220,26 @@ pub fn run(ctx: &Ctx, out: &mut Out, rng: &mut Rng) {
         } else if total > 0 {
             out.inconclusive("too few greased replies");
         }
-        if !ctx.time_left() {
+        if ctx.thorough && !ctx.time_left() {
             out.note("grease loop cut by wall budget");
             break;
+        }
+    }
+    // (a) every configured batch_size once (quick) / several times (thorough), fault 0
+    let reps = if ctx.thorough { 24 } else { 8 };
+    let mut k = 0u64;
+    'o: for rep in 0..reps {
+        for bs in 1..=64u8 {
+            k += 1;
+            if k % ctx.nshards != ctx.shard {
+                continue;
+            }
+            let nrounds = if ctx.thorough && rep % 4 == 0 { 200 } else if ctx.thorough { 30 } else { 16 };
+            clean_history(out, rng, bs, nrounds, k);
+            if !ctx.time_left() {
+                out.note("clean loop cut by wall budget");
+                break 'o;
+            }
         }
     }
     // (c) the same share on the real binary, configured through the file and through the
